@@ -204,7 +204,7 @@ for f in val_fns:
 
 UNIT = Unit(
     name='c18_convert',
-    props=['C18', 'C03'],
+    props=['C18', 'C03', 'C02'],
     blocks=[UNICODE_BLOCK],
     functions=val_fns + [
         Fn(DHH, r'^length\(const XalanDOMChar\*\s+theString\)', 'length',
